@@ -171,7 +171,17 @@ func H_C09_Truncated() {
 	// cut position counted from the end, so that 0 means intact in the token model and natively alike
 	cut := len(full) - vPick(len(full)+1)
 	conn := &vConn{in: full[:cut], frag: vPick(2)}
+	// the exchange can also be cut in the other direction: the request arrives intact, the reply cannot be written
+	replyFails := cut == len(full) && vPick(2) == 1
+	conn.writeErr = replyFails
 	fb.m.handleConn(conn)
+	if replyFails {
+		vAssert(len(fb.m.nodes) == 1 && fb.m.nodeMap[vPeerA] == nil, "c09.trunc.reply-failed-changes-nothing")
+		vAssert(len(fb.ev.log) == 0 && len(fb.del.merged) == 0 && fb.m.broadcasts.NumQueued() == 0, "c09.trunc.reply-failed-no-effects")
+		vAssert(conn.closed == 1 && fb.m.pushPullReq.Load() == 0, "c09.trunc.reply-failed-cleanup")
+		vCover("c09.trunc.reply-failed")
+		return
+	}
 
 	vAssert(conn.closed == 1, "c09.trunc.closed-once")
 	vAssert(conn.readsBeforeDeadline == 0, "c09.trunc.deadline-before-read")
